@@ -7,7 +7,10 @@
 // history-free instance and by long-lived instances that were first shown
 // honest traffic (hist.go): what an instance verified before must not change
 // its verdict on a certificate. change.go adds the chains on which the
-// validator set CHANGES between the certified view and the carrying block.
+// validator set CHANGES between the certified view and the carrying block;
+// shape.go adds the ENCODING of the carrying block's consensus storage (justify
+// absent / null / empty / mistyped, storage not an object, signature container
+// absent / empty, ...) above, at and below the chained-BFT start height.
 package c14
 
 import (
@@ -49,6 +52,11 @@ type Case struct {
 	New         []string `json:"new_set,omitempty"`               // validator set after the change
 	Effective   string   `json:"new_set_in_force_from,omitempty"` // carrying_view-1 | carrying_view | carrying_view+1
 	ClaimedView string   `json:"claimed_view,omitempty"`          // view the certificate claims for the certified id: "" (true) | true_view+1 | true_view-1 | true_view+2
+	// storage-shape dimension (shape.go); Shape empty: the certificate is carried in the canonical encoding
+	Shape         string     `json:"storage_shape,omitempty"`    // name of the shape of the carrying block's consensus storage (shapeCatalogue)
+	StartHeight   int64      `json:"bft_start_height,omitempty"` // chained-BFT start height of the instance
+	Height        int64      `json:"block_height,omitempty"`     // height of the carrying block
+	EarlierBlocks []ShapeRef `json:"earlier_blocks,omitempty"`   // blocks the instance was shown before (after History)
 }
 
 func (c Case) hasPast() bool { return len(c.History) > 0 || len(c.Earlier) > 0 || c.Times > 1 }
@@ -411,7 +419,13 @@ func less(a, b Case) bool {
 	if ja, jb := strings.Join(a.Entries, ","), strings.Join(b.Entries, ","); ja != jb {
 		return ja < jb
 	}
-	return a.Seam < b.Seam
+	if a.Seam != b.Seam {
+		return a.Seam < b.Seam
+	}
+	if a.Shape != b.Shape {
+		return a.Shape < b.Shape
+	}
+	return a.Height < b.Height
 }
 
 // exotic counts entries in the collector's name, fresh re-signatures and
@@ -431,7 +445,7 @@ func exotic(c Case) int {
 			k++
 		}
 	}
-	return k + len(c.History) + 100*len(c.Earlier) + c.Times
+	return k + len(c.History) + 100*len(c.Earlier) + c.Times + 100*len(c.EarlierBlocks)
 }
 
 func (b *best) offer(c Case, v core.Violation) {
@@ -494,7 +508,10 @@ func run(tier core.Tier) *core.Report {
 	// and the new set, size of the signer multisets under the true / under another claimed view
 	maxN, capSize, histSingleN, reencAllN, reencOnceN, maxNBcs, reencAllNBcs := 7, 6, 4, 3, 5, 4, 3
 	chgMaxSet, chgMaxSigners, chgMaxLieSigners := 4, 4, 3
+	// shapeMaxN / shapeBaseSize: storage-shape dimension (shape.go): validator sets, size of the enumerated base lists
+	shapeMaxN, shapeBaseSize := 4, 1
 	if tier == core.Thorough {
+		shapeMaxN, shapeBaseSize = 5, 3
 		maxN, capSize, histSingleN, reencAllN, reencOnceN, maxNBcs, reencAllNBcs = 10, 8, 6, 5, 7, 5, 4
 		chgMaxSet, chgMaxSigners, chgMaxLieSigners = 5, 5, 4
 	}
@@ -980,6 +997,21 @@ func run(tier core.Tier) *core.Report {
 		core.HarnessError("C14: the validator-set change dimension is vacuous: %+v", chg.dependsOnSet)
 	}
 
+	// --- tdpos / xpoa CheckMinerMatch: every shape of the carrying block's consensus storage ---
+	shp := runShapes(rep, shapeMaxN, shapeBaseSize, bst)
+	phase("storage_shapes")
+	if shp.expired {
+		complete = false
+	}
+	for k, v := range shp.violations {
+		cnt.violations[k] += v
+	}
+	shp.report(rep)
+	if !shp.expired && (shp.canonQuorumAbove == 0 || shp.canonRefused > 0 || shp.noCertAbove == 0 || shp.accPerRel["at_start_height"] == 0 || shp.accPerRel["below_start_height"] == 0) {
+		core.HarnessError("C14: the storage-shape dimension is vacuous or its fixture refuses honest blocks: canonical blocks with a quorum above the start height %d (refused %d), cases without a quorum to be found %d, accepted at / below the start height %d / %d",
+			shp.canonQuorumAbove, shp.canonRefused, shp.noCertAbove, shp.accPerRel["at_start_height"], shp.accPerRel["below_start_height"])
+	}
+
 	// --- report ---------------------------------------------------------------
 	keys := make([]string, 0, len(bst.m))
 	for k := range bst.m {
@@ -997,21 +1029,24 @@ func run(tier core.Tier) *core.Report {
 	}
 	histEvals := hst.evals + hst.again + vst.evals + vst.again + bsum.primedEvals
 	rep.Set("violating_cases_per_seam_and_key", cnt.violations)
-	rep.Set("evaluations", thr+cnt.evals+voteEvals+bcsEvals+histEvals+chg.evals+chg.lieEvals)
+	rep.Set("evaluations", thr+cnt.evals+voteEvals+bcsEvals+histEvals+chg.evals+chg.lieEvals+shp.evals)
 	rep.Set("evaluations_on_instances_with_a_past", histEvals)
 	rep.Set("distinct_nontrivial", cnt.nontrivial)
-	rep.Set("rule", "cases = every multiset of signature entries of size <= min(n+1, cap) over the kinds {valid member Vi (i=2..n), collector V1, non-member X, member over another id, corrupted, empty, member address with another member's key, member address with X's key}, each in canonical and reversed order; the further copies of a repeated member in every spelling: identical copies, fresh signatures of the same member (the signer is randomised), and each re-encoding the crypto client accepts (public-key JSON respelled: white space, member order, member-name case, extra member, trailing newline, escaped string, duplicated member; signature respelled: trailing byte after the DER value, (r,N-s)) - a repeated member must count once however its entries are spelled; a case is non-trivial when its list holds at least one entry that must not count (repeat, collector, non-member, other id, invalid, mismatch); counted over the CheckProposal seam on the history-free instance. HISTORY dimension: every case is judged by long-lived instances (fixed deal of the multisets to "+fmt.Sprint(shards)+" shards, one instance per shard, validator-set size and history, never reset between cases) that were first shown honest traffic through the same seams: none / each single step / all steps of {every member's vote for the other id - the very entries the cases re-use as Vi:otherid -, the honest certificate for the other id, every member's vote and the honest certificate for the certified id, votes of former members X and V(n+1) under the wider earlier validator set}; the history-free instance is shown every list twice in a row (validator sets up to the single-step bound; CheckVote: all). Judged on every instance: accepted => quorum of distinct valid member signatures (absolute), and compared with the history-free verdict (differential, counted). A below-quorum acceptance that a blank instance does not show is re-run on fresh instances to find the smallest past that reproduces it (history alone, second presentation, one earlier certificate, all earlier certificates of the shard). VALIDATOR-SET CHANGE dimension (setchange_* keys): the real tdpos / xpoa CheckMinerMatch over a stub chain on which the validator set changes from OLD to NEW through the real kernel contract methods (xpoa editValidates; tdpos nominateCandidate + voteCandidate, the new set elected for term 2), their writes read back by the real schedule through per-block snapshots; every pair old = V1..Va, new = any subset of old followed by f fresh members (sizes 1.."+fmt.Sprint(chgMaxSet)+" each; tdpos |new| = |old|: same, grow, shrink, disjoint replace, overlap) x the view from which the new set is in force (the carrying view h, h-1, h+1) x every multiset of size <= "+fmt.Sprint(chgMaxSigners)+" of valid signatures over the certified id by the members of old + new + the outsider X x the view the certificate claims for the certified id (the true view h-1, or - multisets of size <= "+fmt.Sprint(chgMaxLieSigners)+" - h, h-2, h+1: the signed message is the id alone, the view an unauthenticated field); one long-lived instance per scenario; judged: accepted => a quorum of distinct signers are members of the set in force for the view of the CERTIFIED block (threshold from that set's size), and compared with a plain CheckProposal instance handed that set (differential, counted); per scenario the model's sets in force for the views h-1 and h are first cross-checked against the proposers CheckMinerMatch entitles in every slot")
-	rep.Set("bounds", fmt.Sprintf("n=1..%d, list size <= min(n+1,%d); histories none+all n<=%d, single steps and second presentation n<=%d; CalVotesThreshold 0<=input<=n<=10; CheckVote n=1..%d, all histories; tdpos/xpoa n=1..%d size<=n+1, history-free and after %v; repeats once per re-encoding for n<=%d (tdpos/xpoa n<=%d), once with rotating re-encodings for n<=%d (tdpos/xpoa: all larger n), identical and fresh copies only above; validator-set change: old and new sets of 1..%d members, signer multisets of size <= %d, new set in force from view h-1 / h / h+1, claimed view h-1 (true) or h / h-2 / h+1 (multisets of size <= %d)", maxN, capSize, maxN, histSingleN, maxN, maxNBcs, bcsHistory, reencAllN, reencAllNBcs, reencOnceN, chgMaxSet, chgMaxSigners, chgMaxLieSigners))
+	rep.Set("rule", "cases = every multiset of signature entries of size <= min(n+1, cap) over the kinds {valid member Vi (i=2..n), collector V1, non-member X, member over another id, corrupted, empty, member address with another member's key, member address with X's key}, each in canonical and reversed order; the further copies of a repeated member in every spelling: identical copies, fresh signatures of the same member (the signer is randomised), and each re-encoding the crypto client accepts (public-key JSON respelled: white space, member order, member-name case, extra member, trailing newline, escaped string, duplicated member; signature respelled: trailing byte after the DER value, (r,N-s)) - a repeated member must count once however its entries are spelled; a case is non-trivial when its list holds at least one entry that must not count (repeat, collector, non-member, other id, invalid, mismatch); counted over the CheckProposal seam on the history-free instance. HISTORY dimension: every case is judged by long-lived instances (fixed deal of the multisets to "+fmt.Sprint(shards)+" shards, one instance per shard, validator-set size and history, never reset between cases) that were first shown honest traffic through the same seams: none / each single step / all steps of {every member's vote for the other id - the very entries the cases re-use as Vi:otherid -, the honest certificate for the other id, every member's vote and the honest certificate for the certified id, votes of former members X and V(n+1) under the wider earlier validator set}; the history-free instance is shown every list twice in a row (validator sets up to the single-step bound; CheckVote: all). Judged on every instance: accepted => quorum of distinct valid member signatures (absolute), and compared with the history-free verdict (differential, counted). A below-quorum acceptance that a blank instance does not show is re-run on fresh instances to find the smallest past that reproduces it (history alone, second presentation, one earlier certificate, all earlier certificates of the shard). VALIDATOR-SET CHANGE dimension (setchange_* keys): the real tdpos / xpoa CheckMinerMatch over a stub chain on which the validator set changes from OLD to NEW through the real kernel contract methods (xpoa editValidates; tdpos nominateCandidate + voteCandidate, the new set elected for term 2), their writes read back by the real schedule through per-block snapshots; every pair old = V1..Va, new = any subset of old followed by f fresh members (sizes 1.."+fmt.Sprint(chgMaxSet)+" each; tdpos |new| = |old|: same, grow, shrink, disjoint replace, overlap) x the view from which the new set is in force (the carrying view h, h-1, h+1) x every multiset of size <= "+fmt.Sprint(chgMaxSigners)+" of valid signatures over the certified id by the members of old + new + the outsider X x the view the certificate claims for the certified id (the true view h-1, or - multisets of size <= "+fmt.Sprint(chgMaxLieSigners)+" - h, h-2, h+1: the signed message is the id alone, the view an unauthenticated field); one long-lived instance per scenario; judged: accepted => a quorum of distinct signers are members of the set in force for the view of the CERTIFIED block (threshold from that set's size), and compared with a plain CheckProposal instance handed that set (differential, counted); per scenario the model's sets in force for the views h-1 and h are first cross-checked against the proposers CheckMinerMatch entitles in every slot. STORAGE-SHAPE dimension (shape_* keys): the ENCODING of the carrying block's consensus storage at the real tdpos / xpoa CheckMinerMatch: consensus x validator sets V1..Vn (n=1.."+fmt.Sprint(shapeMaxN)+") x relation of the block to the chained-BFT start height (above: start 1, height 2; at: start 2, height 2; below: start 2, height 1) x base list (the honest carrying blocks - every validator signed, every validator but the proposer, exactly a quorum - and forged ones: one short of a quorum, none, every case of the main enumeration with <= "+fmt.Sprint(shapeBaseSize)+" entries) x every shape of the fixed catalogue shape_catalogue (justify absent / null / empty object / another JSON type / twice; storage zero bytes / not JSON / truncated / null / array / string / number / `{}` / unknown fields only; unknown extra fields beside, inside the certificate and inside the signature container; signature container absent / null / empty / list null / empty / of empty or null entries / of another JSON type; certificate fields absent), each through its carrier: the real state.BlockAgent over a wire-round-tripped InternalBlock with the protobuf field absent / empty, or a plain BlockInterface value returning the bytes; one history-free long-lived instance per consensus, n and relation plus, above the start height, one that first accepted the honest blocks; judged above the start height: accepted => a quorum of distinct valid member signatures over the certified id can be found in the storage bytes (the catalogue says per shape whether the base list's entries are still in the bytes; shapes that remove them must be refused whenever the threshold is positive), at / below the start height the exemption applies: verdicts counted only; a panic of the implementation counts as a refusal (counted)")
+	rep.Set("bounds", fmt.Sprintf("n=1..%d, list size <= min(n+1,%d); histories none+all n<=%d, single steps and second presentation n<=%d; CalVotesThreshold 0<=input<=n<=10; CheckVote n=1..%d, all histories; tdpos/xpoa n=1..%d size<=n+1, history-free and after %v; repeats once per re-encoding for n<=%d (tdpos/xpoa n<=%d), once with rotating re-encodings for n<=%d (tdpos/xpoa: all larger n), identical and fresh copies only above; validator-set change: old and new sets of 1..%d members, signer multisets of size <= %d, new set in force from view h-1 / h / h+1, claimed view h-1 (true) or h / h-2 / h+1 (multisets of size <= %d); storage shapes: %d shapes x n=1..%d x {above, at, below the start height} x honest and forged base lists (enumerated ones of size <= %d)", maxN, capSize, maxN, histSingleN, maxN, maxNBcs, bcsHistory, reencAllN, reencAllNBcs, reencOnceN, chgMaxSet, chgMaxSigners, chgMaxLieSigners, len(shapeCatalogue()), shapeMaxN, shapeBaseSize))
 	rep.Set("accepted_total", cnt.accepted+voteAcc+bcsAcc)
 	rep.Set("exhaustive", complete)
 	if chg.sample != nil {
 		rep.Sample(chg.sample)
 	}
+	if shp.sample != nil {
+		rep.Sample(shp.sample)
+	}
 	if len(bcsSamples) > 0 {
 		rep.Sample(bcsSamples[0])
 	}
-	if len(sampleToks) > 2 {
-		sampleToks = sampleToks[:2]
+	if len(sampleToks) > 1 {
+		sampleToks = sampleToks[:1] // five samples are kept: set change, storage shape, tdpos/xpoa, CheckProposal, CheckVote
 	}
 	for _, toks := range sampleToks {
 		acc, t := evalProposal(r0, 4, mustEntries(toks))
@@ -1026,12 +1061,14 @@ func run(tier core.Tier) *core.Report {
 	rep.Assume("entries of one kind are interchangeable: invalid entries are attributed to the members Vn, Vn-1, ... in turn; lists are tried in canonical and reversed order, not in every permutation")
 	rep.Assume("tdpos / xpoa run over a stub LedgerRely, network and kernel registry (two stored blocks, initial validator set), block at height 2 wrapped by the real state.BlockAgent")
 	rep.Assume("validator-set change: the set in force for a view is the chain's own rule - xpoa: the set written by block c is in force from view c+4 on (the schedule reads the snapshot of block view-4), tdpos: the initial proposers serve the term that holds the start height, the top-K elected from the nominations and votes serve from the first block of the next term on; the rule is not taken on trust: for the views h-1 and h of every scenario the proposers the real CheckMinerMatch entitles slot by slot must be the model's set (harness error otherwise). The stub chain stores block headers and the key/value writes of the kernel-contract calls per block; TargetBits (rollback target) stays 0")
+	rep.Assume("storage shapes: the model does not decode the storage; per shape the catalogue states whether the base list's signature entries are still contained in the bytes (generously: also inside a JSON string / array / after a duplicate member), and only acceptance is bounded; the raw carrier reaches shapes the real BlockAgent cannot render (it marshals protobuf fields), the seam's signature admits them")
 	rep.Assume("binding of the certificate to the block's parent (justify id vs PreHash) is outside this statement and not judged here")
 	rep.Assume("histories consist of CheckVote / CheckProposal (CheckMinerMatch) calls only; VoteProposal / UpdatePreferredRound, which legitimately raise the view floors of an instance, are not part of a history")
 	rep.Assume("a verdict that differs from the history-free one without breaking the threshold bound (e.g. a list with a quorum and one invalid entry) is counted, not reported: the statement bounds acceptance only")
-	fmt.Printf("C14 %s: threshold pairs=%d; CheckProposal cases=%d accepted=%d rejected=%d (rejected with quorum present=%d); CheckVote cases=%d accepted=%d; tdpos/xpoa cases=%d accepted=%d; on instances with a past: %d evaluations, verdict differs from the history-free one in %d; across a validator-set change: scenarios=%d cases=%d accepted=%d, with another claimed view cases=%d accepted=%d\n",
+	fmt.Printf("C14 %s: threshold pairs=%d; CheckProposal cases=%d accepted=%d rejected=%d (rejected with quorum present=%d); CheckVote cases=%d accepted=%d; tdpos/xpoa cases=%d accepted=%d; on instances with a past: %d evaluations, verdict differs from the history-free one in %d; across a validator-set change: scenarios=%d cases=%d accepted=%d, with another claimed view cases=%d accepted=%d; storage shapes: cases=%d, above the start height without a quorum in the storage=%d accepted=%d, with a quorum=%d accepted=%d\n",
 		tier, thr, cnt.evals, cnt.accepted, cnt.rejected, cnt.rejectedAbove, voteEvals, voteAcc, bcsEvals, bcsAcc, histEvals, hst.differsAccept+hst.differsRefuse+hst.againDiffers+vst.differsAccept+vst.differsRefuse+vst.againDiffers+bsum.differs,
-		chg.scenarios, chg.evals, chg.accepted, chg.lieEvals, chg.lieAccepted)
+		chg.scenarios, chg.evals, chg.accepted, chg.lieEvals, chg.lieAccepted,
+		shp.evals, shp.noCertAbove, shp.noCertAboveAcc, shp.quorumAbove, shp.quorumAboveAcc)
 	return rep
 }
 
@@ -1084,6 +1121,20 @@ func replay(raw json.RawMessage) (bool, string, error) {
 	}
 	if c.N < 1 || c.N > 10 {
 		return false, "", fmt.Errorf("n out of range")
+	}
+	if c.Shape != "" {
+		for _, t := range c.Entries {
+			if _, err := parseEntry(t); err != nil {
+				return false, "", err
+			}
+		}
+		_, acc, sh, err := replayShape(c)
+		if err != nil {
+			return false, "", err
+		}
+		found, needed := shapeQuorum(sh, c.N, mustEntries(c.Entries))
+		bad := acc && c.Height > c.StartHeight && found < needed
+		return bad, fmt.Sprintf("%s n=%d block height=%d start height=%d storage shape=%s [%s] base entries=%v earlier_blocks=%d accepted=%v distinct valid member signatures to be found in the storage=%d needed=%d", c.Seam, c.N, c.Height, c.StartHeight, c.Shape, sh.class, c.Entries, len(c.EarlierBlocks), acc, found, needed), nil
 	}
 	es := make([]*entry, len(c.Entries))
 	for i, t := range c.Entries {
